@@ -318,6 +318,18 @@ func c13Catalogue(maxChain int) []option {
 			}})
 		}
 	}
+	// schemas reached through definition / property names with special characters ('%' included: this property does not
+	// restrict the names) and through special path templates
+	for _, nm := range []string{"rate%", "vat%20x", "a/b", "t~x", "pet owner", "al~1"} {
+		nm := nm
+		for _, kw := range []string{"pattern", "enum"} {
+			kw := kw
+			opts = append(opts, option{Label: kw + "@schemaNamed[" + nm + "]", Plants: func(inst, pi int) []gen.Plant {
+				n := nm + strings.Repeat("x", inst)
+				return []gen.Plant{gen.P(gen.J{"type": "object"}, "definitions", n), gen.P(gen.J{"type": "string"}, "definitions", n, "properties", nm), gen.P(payload(kw, pi), "definitions", n, "properties", nm)}
+			}})
+		}
+	}
 	return opts
 }
 
